@@ -363,6 +363,13 @@ func runSweep3x(a *args) {
 }
 
 func checkTenth(col *collector, prop string, v *Ver, o Obj, method string, got float64, p bool, msg string, lo int) {
+	if prop == "C09" {
+		// C09: every scoring function returns without panicking (what it returns is C03-C05 / C11 business)
+		if p {
+			col.violate(Violation{Property: prop, Kind: "scoring method panicked on a reachable object", Version: v.Name, Input: o.Vector(), Expected: "no panic", Observed: map[string]interface{}{"method": method, "panic": msg}})
+		}
+		return
+	}
 	k, ok := isTenth(got, lo, 100)
 	if p || !ok {
 		col.violate(Violation{Property: prop, Kind: "score is not a one-decimal number within the scale", Version: v.Name,
